@@ -179,9 +179,18 @@ Definition cancel_with (s : st) (id : nat) (cls : Z) : st * list out :=
       end
   end.
 
-(* [code] is the code of the answer to the deregistration request *)
+(* [code] is the code of the answer to the deregistration request; this is
+   [cancel_with s id (if code_ok code then 1 else 2)], written out *)
 Definition cancel (s : st) (id : nat) (code : Z) : st * list out :=
-  cancel_with s id (if code_ok code then 1 else 2).
+  match nth_error (regs s) id with
+  | None => (s, [])
+  | Some tok =>
+      let k := crc64 tok in
+      match tget k (tbl s) with
+      | None => (s, [CanRet id 0])
+      | Some _ => (mkSt (tdel k (tbl s)) (regs s), [CanRet id (if code_ok code then 1 else 2)])
+      end
+  end.
 
 (* the deregistration exchange failed *)
 Definition cancel_err (s : st) (id : nat) : st * list out := cancel_with s id 3.
